@@ -43,8 +43,9 @@ def _cdop(I, h):
         return "(DResume %s %s)" % (cnat(h["c"]), cZ(h["b"]))
     if h["o"] == "open":
         return "(DOpen %s %s)" % (cnat(h["c"]), cZ(h["b"]))
-    return "(%s %s %s %s %s)" % ("DCut" if h.get("x") else "DO", cnat(h["c"]), _cop(I, h), cZ(h["b"]),
-                                 copt(h.get("d"), cZ, "Z"))
+    # p: handed over while the client was not reading, the reply (if any) read only after it resumed
+    ctor = "DPend" if h.get("p") else "DCut" if h.get("x") else "DO"
+    return "(%s %s %s %s %s)" % (ctor, cnat(h["c"]), _cop(I, h), cZ(h["b"]), copt(h.get("d"), cZ, "Z"))
 
 
 def _cmsg(I, m):
